@@ -41,6 +41,7 @@ var lifeSQL = map[string]string{
 	"ptumble":       "SELECT g, count(*) AS c FROM stream GROUP BY g, TumblingWindow('15ms')",
 	"pslide":        "SELECT g, count(*) AS c FROM stream GROUP BY g, SlidingWindow('30ms','10ms')",
 	"psession":      "SELECT g, count(*) AS c FROM stream GROUP BY g, SessionWindow('10ms')",
+	"slide_idle":    "SELECT g, count(*) AS c FROM stream GROUP BY g, SlidingWindow('2s','1s') WITH (TIMESTAMP='ts', TIMEUNIT='ms', IDLETIMEOUT='50ms')",
 	"boom_direct":   "SELECT id, vboom(v) AS b FROM stream",
 	"boom_where":    "SELECT id FROM stream WHERE vboom(v) > -5",
 	"boom_count":    "SELECT count(*) AS c, sum(vboom(v)) AS s FROM stream GROUP BY CountingWindow(2)",
@@ -264,6 +265,25 @@ func RunLife(sc LifeScenario) (evs []Ev, inconclusive string) {
 			log(Ev{"e": "deadlock", "q": atomic.AddInt64(&seq, 1)})
 		}
 		time.Sleep(30 * time.Millisecond)
+	case "idlestop":
+		// historic event timestamps (1970) and an idle timeout: once the source is idle the watermark jumps to the wall clock,
+		// decades ahead of the window cursor; the engine must stay responsive (Emit, Stop) all the same
+		for i := 1; i <= 6; i++ {
+			guard("Emit", func() { s.Emit(row(i)) })
+		}
+		time.Sleep(450 * time.Millisecond) // idle timeout (50 ms) + watermark tick (200 ms) have passed
+		done := make(chan struct{})
+		go func() {
+			guard("Emit", func() { s.Emit(row(7)) })
+			stop(1)
+			close(done)
+		}()
+		select {
+		case <-done:
+		case <-time.After(20 * time.Second):
+			log(Ev{"e": "deadlock", "q": atomic.AddInt64(&seq, 1)})
+			<-done
+		}
 	case "slowdrain":
 		// far more results queued for the asynchronous sink than it can work off within the grace period: Stop does not wait
 		// for the backlog, and nothing of the backlog is delivered after Stop returned
